@@ -25,7 +25,14 @@ theorem esStep_log (fs : List Filter) (cap : Nat) (s : ES) (a : Act) :
       · simp [hs, hw]
   | consume =>
     simp only [esStep, liveArrivals]
-    cases s.buf <;> simp
+    by_cases hd : s.dead = true
+    · simp [hd]
+    · cases s.buf <;> simp [hd]
+  | consumeFail =>
+    simp only [esStep, liveArrivals]
+    by_cases hd : s.dead = true
+    · simp [hd]
+    · cases s.buf <;> simp [hd]
   | stop => simp [esStep, liveArrivals]
 
 theorem esStep_stopped (fs : List Filter) (cap : Nat) (s : ES) (a : Act) :
@@ -40,7 +47,14 @@ theorem esStep_stopped (fs : List Filter) (cap : Nat) (s : ES) (a : Act) :
       · simp [hs, hw]
   | consume =>
     simp only [esStep]
-    cases s.buf <;> simp
+    by_cases hd : s.dead = true
+    · simp [hd]
+    · cases s.buf <;> simp [hd]
+  | consumeFail =>
+    simp only [esStep]
+    by_cases hd : s.dead = true
+    · simp [hd]
+    · cases s.buf <;> simp [hd]
   | stop => simp [esStep]
 
 theorem es_log (fs : List Filter) (cap : Nat) (sched : List Act) (s : ES) :
@@ -55,33 +69,59 @@ theorem es_log (fs : List Filter) (cap : Nat) (sched : List Act) (s : ES) :
     · cases a with
       | arrive e => simp [hs, liveArrivals, List.filter_cons]; split <;> simp
       | consume => simp [hs, liveArrivals]
+      | consumeFail => simp [hs, liveArrivals]
       | stop => simp [hs, liveArrivals]
 
-theorem esStep_acc (fs : List Filter) (cap : Nat) (s : ES) (a : Act)
-    (h : s.sent ++ s.buf = accepted s.log) :
-    (esStep fs cap s a).sent ++ (esStep fs cap s a).buf = accepted (esStep fs cap s a).log := by
-  have h' : s.sent ++ s.buf = List.map (fun x => x.fst) (List.filter (fun x => x.snd) s.log) := h
+/-- accounting invariant: sent, the one event lost to a failed send, and the buffer are exactly
+the accepted arrivals, in order; nothing is lost while the goroutine lives -/
+def AccInv (s : ES) : Prop := s.sent ++ s.lost ++ s.buf = accepted s.log ∧ (s.dead = false → s.lost = [])
+
+theorem esStep_acc (fs : List Filter) (cap : Nat) (s : ES) (a : Act) (h : AccInv s) :
+    AccInv (esStep fs cap s a) := by
+  obtain ⟨h, hl⟩ := h
+  have h' : s.sent ++ s.lost ++ s.buf = List.map (fun x => x.fst) (List.filter (fun x => x.snd) s.log) := h
   cases a with
   | arrive e =>
     simp only [esStep]
     by_cases hs : s.stopped = true
-    · simp [hs, h]
+    · simp [hs]; exact ⟨h, hl⟩
     · by_cases hw : wanted fs e = true
       · by_cases hc : s.buf.length < cap
-        · simp [hs, hw, hc, accepted, ← h', List.append_assoc]
-        · simp [hs, hw, hc, accepted, ← h']
-      · simp [hs, hw, h]
+        · simp [hs, hw, hc]
+          exact ⟨by simp [accepted, ← h', List.append_assoc], hl⟩
+        · simp [hs, hw, hc]
+          exact ⟨by simp [accepted, ← h'], hl⟩
+      · simp [hs, hw]; exact ⟨h, hl⟩
   | consume =>
     simp only [esStep]
-    cases hb : s.buf with
-    | nil => simp [← h, hb]
-    | cons e r => simp [← h, hb]
-  | stop => simpa [esStep] using h
+    by_cases hd : s.dead = true
+    · simp [hd]; exact ⟨h, hl⟩
+    · simp at hd
+      have hl0 := hl hd
+      cases hb : s.buf with
+      | nil => simp [hd]; exact ⟨by simpa [hb] using h, hl⟩
+      | cons e r =>
+        simp [hd]
+        refine ⟨?_, fun _ => hl0⟩
+        show s.sent ++ [e] ++ s.lost ++ r = accepted s.log
+        rw [← h, hb, hl0]; simp
+  | consumeFail =>
+    simp only [esStep]
+    by_cases hd : s.dead = true
+    · simp [hd]; exact ⟨h, hl⟩
+    · simp at hd
+      have hl0 := hl hd
+      cases hb : s.buf with
+      | nil => simp [hd]; exact ⟨by simpa [hb] using h, hl⟩
+      | cons e r =>
+        simp [hd]
+        refine ⟨?_, fun hh => by simp at hh⟩
+        show s.sent ++ [e] ++ r = accepted s.log
+        rw [← h, hb, hl0]; simp
+  | stop => exact ⟨h, hl⟩
 
-theorem es_acc (fs : List Filter) (cap : Nat) (sched : List Act) (s : ES)
-    (h : s.sent ++ s.buf = accepted s.log) :
-    (sched.foldl (esStep fs cap) s).sent ++ (sched.foldl (esStep fs cap) s).buf
-      = accepted (sched.foldl (esStep fs cap) s).log := by
+theorem es_acc (fs : List Filter) (cap : Nat) (sched : List Act) (s : ES) (h : AccInv s) :
+    AccInv (sched.foldl (esStep fs cap) s) := by
   induction sched generalizing s with
   | nil => simpa using h
   | cons a r ih => rw [List.foldl_cons]; exact ih _ (esStep_acc fs cap s a h)
@@ -100,9 +140,18 @@ theorem esStep_cap (fs : List Filter) (cap : Nat) (s : ES) (a : Act) (h : s.buf.
       · simp [hs, hw]; exact h
   | consume =>
     simp only [esStep]
-    cases hb : s.buf with
-    | nil => simp; exact h
-    | cons e r => simp [hb] at h ⊢; omega
+    by_cases hd : s.dead = true
+    · simp [hd]; exact h
+    · cases hb : s.buf with
+      | nil => simp [hd]; exact h
+      | cons e r => simp [hb] at h; simp [hd]; omega
+  | consumeFail =>
+    simp only [esStep]
+    by_cases hd : s.dead = true
+    · simp [hd]; exact h
+    · cases hb : s.buf with
+      | nil => simp [hd]; exact h
+      | cons e r => simp [hb] at h; simp [hd]; omega
   | stop => simpa [esStep] using h
 
 theorem es_cap (fs : List Filter) (cap : Nat) (sched : List Act) (s : ES) (h : s.buf.length ≤ cap) :
@@ -113,25 +162,29 @@ theorem es_cap (fs : List Filter) (cap : Nat) (sched : List Act) (s : ES) (h : s
 
 /-- a stopped stream: nothing enters the buffer or the log any more, whatever is dispatched -/
 theorem es_after_stop (fs : List Filter) (cap : Nat) (sched : List Act) (s : ES) (hs : s.stopped = true) :
-    (sched.foldl (esStep fs cap) s).log = s.log ∧
-    (sched.foldl (esStep fs cap) s).sent ++ (sched.foldl (esStep fs cap) s).buf = s.sent ++ s.buf ∧
-    (sched.foldl (esStep fs cap) s).stopped = true := by
+    (sched.foldl (esStep fs cap) s).log = s.log ∧ (sched.foldl (esStep fs cap) s).stopped = true := by
   induction sched generalizing s with
   | nil => simp [hs]
   | cons a r ih =>
     rw [List.foldl_cons]
-    have hstep : (esStep fs cap s a).log = s.log ∧ (esStep fs cap s a).sent ++ (esStep fs cap s a).buf = s.sent ++ s.buf ∧
-        (esStep fs cap s a).stopped = true := by
+    have hstep : (esStep fs cap s a).log = s.log ∧ (esStep fs cap s a).stopped = true := by
       cases a with
       | arrive e => simp [esStep, hs]
       | consume =>
         simp only [esStep]
-        cases hb : s.buf <;> simp [hs, hb]
+        by_cases hd : s.dead = true
+        · simp [hd, hs]
+        · cases hb : s.buf <;> simp [hd, hs]
+      | consumeFail =>
+        simp only [esStep]
+        by_cases hd : s.dead = true
+        · simp [hd, hs]
+        · cases hb : s.buf <;> simp [hd, hs]
       | stop => simp [esStep]
-    obtain ⟨h1, h2, h3⟩ := ih _ hstep.2.2
-    exact ⟨by rw [h1, hstep.1], by rw [h2, hstep.2.1], h3⟩
+    obtain ⟨h1, h3⟩ := ih _ hstep.2
+    exact ⟨by rw [h1, hstep.1], h3⟩
 
-theorem es_drain (fs : List Filter) (cap : Nat) (n : Nat) (s : ES) (h : s.buf.length ≤ n) :
+theorem es_drain (fs : List Filter) (cap : Nat) (n : Nat) (s : ES) (h : s.buf.length ≤ n) (hd : s.dead = false) :
     ((List.replicate n Act.consume).foldl (esStep fs cap) s).buf = [] ∧
     ((List.replicate n Act.consume).foldl (esStep fs cap) s).sent = s.sent ++ s.buf ∧
     ((List.replicate n Act.consume).foldl (esStep fs cap) s).log = s.log := by
@@ -143,14 +196,14 @@ theorem es_drain (fs : List Filter) (cap : Nat) (n : Nat) (s : ES) (h : s.buf.le
     rw [List.replicate_succ, List.foldl_cons]
     cases hb : s.buf with
     | nil =>
-      have hs : esStep fs cap s .consume = s := by simp [esStep, hb]
+      have hs : esStep fs cap s .consume = s := by simp [esStep, hb, hd]
       rw [hs]
-      have := ih s (by simp [hb])
+      have := ih s (by simp [hb]) hd
       simpa [hb] using this
     | cons e r =>
-      have hs : esStep fs cap s .consume = { s with buf := r, sent := s.sent ++ [e] } := by simp [esStep, hb]
+      have hs : esStep fs cap s .consume = { s with buf := r, sent := s.sent ++ [e] } := by simp [esStep, hb, hd]
       rw [hs]
-      have := ih { s with buf := r, sent := s.sent ++ [e] } (by simp [hb] at h; simpa using by omega)
+      have := ih { s with buf := r, sent := s.sent ++ [e] } (by simp [hb] at h; simpa using by omega) hd
       simpa using this
 
 /-! ## query stream -/
